@@ -154,9 +154,61 @@ let chain_oracle proc c o =
   match (try Some (parse_obs o) with _ -> None) with
   | None -> "BAD unreadable observation"
   | Some obs -> if l_checkb proc env ops obs then "OK" else "BAD differs from the chain specification: " ^ pr_obs (l_run proc env ops)
-let model line = match chain_mode line with Some proc -> chain_model proc line | None -> model line
+(* ---- IO cases "WI ...": model LoopIo.hi_run (heap level of the IO watches of the built instance: chain + the default
+   loop's slot arrays; FAULT / LEAK), oracle LoopIo.j_checkb.  Actions wi<fdindex>:1:<fl>:<cb>, c<id>, -; ops
+   R<fdindex>:1 (the descriptor is ready at the next poll), r0.  The model numbers the terminal watch of tickit_build 0:
+   the harness's watch k is the model's k+1. *)
+let io_mode line = match split_ws line with "WI" :: _ -> true | _ -> false
+let iact_of a =
+  if a = "-" then Some INop else
+  match a.[0] with
+  | 'w' ->
+    (match a.[1], ints (tl a 2) with
+     | 'i', [fd; _; fl; cb] -> Some (IReg (fl land 1 <> 0, zi fd, fl land 2 <> 0, fl land 4 <> 0, zi cb))
+     | _ -> failwith "io w")
+  | 'c' when String.length a > 1 && a.[1] <> 'b' -> Some (ICancel (zi (int_of_string (tl a 1) + 1)))
+  | _ -> None
+let parse_io line =
+  let cbs = Hashtbl.create 8 in
+  let ops = ref [] and ready = ref [] in
+  List.iter (fun tok ->
+      if tok = "WI" then () else
+      if String.length tok > 2 && tok.[0] = 'c' && tok.[1] = 'b' then begin
+        match String.index_opt tok '=' with
+        | Some i ->
+          let k = int_of_string (String.sub tok 2 (i - 2)) in
+          let acts = List.filter (fun x -> x <> "") (String.split_on_char ',' (tl tok (i + 1))) in
+          Hashtbl.replace cbs k (List.map (fun a -> match iact_of a with Some x -> x | None -> failwith ("act " ^ a)) acts)
+        | None -> failwith "cb"
+      end else
+        match iact_of tok with
+        | Some a -> ops := JAct a :: !ops
+        | None ->
+          (match tok.[0] with
+           | 'R' -> (match ints (tl tok 1) with [f; _] -> ready := zi f :: !ready | _ -> failwith "R")
+           | 'r' -> ops := JTick (List.rev !ready) :: !ops; ready := []
+           | _ -> failwith ("op " ^ tok)))
+    (split_ws line);
+  let env z = try Hashtbl.find cbs (int_of_z z) with Not_found -> [] in
+  (env, List.rev !ops)
+let shift d = List.map (function OEv e -> OEv { e with e_id = zi (int_of_z e.e_id + d) } | x -> x)
+let io_model line =
+  let (env, ops) = parse_io line in
+  match hi_run env ops with
+  | None -> "FAULT"
+  | Some (l, leakfree) ->
+    if l <> j_run env ops then "ERR heap level and specification disagree" else
+    let l = shift (-1) l in
+    if leakfree then pr_obs l else if l = [] then "LEAK" else pr_obs l ^ " LEAK"
+let io_oracle c o =
+  let (env, ops) = parse_io c in
+  match (try Some (parse_obs o) with _ -> None) with
+  | None -> "BAD unreadable observation"
+  | Some obs -> if j_checkb env ops (shift 1 obs) then "OK" else "BAD differs from the IO specification: " ^ pr_obs (shift (-1) (j_run env ops))
+let model line = if io_mode line then io_model line else match chain_mode line with Some proc -> chain_model proc line | None -> model line
 let oracle line =
   match String.index_opt line '|' with
+  | Some i when io_mode line -> io_oracle (String.sub line 0 i) (tl line (i + 1))
   | Some i when chain_mode line <> None ->
     (match chain_mode line with Some proc -> chain_oracle proc (String.sub line 0 i) (tl line (i + 1)) | None -> "BAD")
   | _ -> oracle line
